@@ -1337,6 +1337,39 @@ def oracle_c14(ctx):
         want = '' if s == 'cluster_id' else None
         if getattr(inst, s) != want:
             res.violation('Basic.Properties default of %s' % s, {'fn': 'c14_case', 'args': pyrepr(('Basic.Properties',))}, want, getattr(inst, s))
+    # the catalogue must stay what it is under ordinary use of the library: (a) mutate the containers
+    # an instance got by default, then construct again; (b) an application subclasses a method class
+    for (cname, cid), methods in S.SPEC.items():
+        for (mname, mid, resp, args) in methods:
+            cls = commands.INDEX_MAPPING.get(cid << 16 | mid)
+            if cls is None:
+                continue
+            inst = cls()
+            for s_ in cls.__slots__:
+                v = getattr(inst, s_)
+                if isinstance(v, dict):
+                    v['x-verif-probe'] = 1
+                elif isinstance(v, list):
+                    v.append('x-verif-probe')
+            again = cls()
+            for (a, t, d) in args:
+                want = {} if t == 'table' else d
+                got = getattr(again, S.pyname(a))
+                res.case('history default %s.%s' % (cls.name, a), tag='default after mutation')
+                if got != want:
+                    res.violation('%s: default of %s after another instance\'s default was mutated' % (cls.name, a),
+                                  {'fn': 'c14_case', 'args': pyrepr((cls.name,))}, want, got)
+    before = dict(commands.INDEX_MAPPING)
+    try:
+        probe = type('VerifProbe', (commands.Basic.Publish,), {})
+        probe2 = type('VerifProbe2', (commands.Queue.Declare,), {'__slots__': []})
+    except Exception as e:  # noqa
+        res.notes.append('subclassing a method class raised %r' % e)
+    res.case('subclassing', tag='mapping after subclassing')
+    if dict(commands.INDEX_MAPPING) != before or list(commands.INDEX_MAPPING) != list(before):
+        changed = [hex(k) for k in commands.INDEX_MAPPING if commands.INDEX_MAPPING.get(k) is not before.get(k)]
+        res.violation('INDEX_MAPPING changes when an application subclasses a method class', {'fn': 'c14_case', 'args': pyrepr(('subclass',))},
+                      'the 64 specification classes', 'entries %s replaced' % changed)
     res.notes.append('exhaustive over %d methods and 14 properties' % len(seen))
     return res
 
@@ -1367,6 +1400,17 @@ def oracle_c17(ctx):
         res.case('const ' + k, tag='constant', sample={'constant': k, 'value': repr(v)})
         if getattr(constants, k, None) != v or type(getattr(constants, k, None)) is not type(v):
             res.violation('constants.%s' % k, {'fn': 'c14_case', 'args': pyrepr((k,))}, v, getattr(constants, k, None))
+    before = dict(exceptions.CLASS_MAPPING)
+    try:
+        type('VerifQueueNotFound', (exceptions.AMQPNotFound,), {'name': 'QUEUE-NOT-FOUND'})
+        type('VerifFatal', (exceptions.AMQPHardError, exceptions.AMQPAccessRefused), {})
+    except Exception as e:  # noqa
+        res.notes.append('subclassing raised %r' % e)
+    res.case('subclassing', tag='mapping after subclassing')
+    if dict(exceptions.CLASS_MAPPING) != before:
+        res.violation('CLASS_MAPPING changes when an application subclasses a reply-code exception',
+                      {'fn': 'c14_case', 'args': pyrepr(('CLASS_MAPPING subclass',))}, 'unchanged',
+                      [k for k in exceptions.CLASS_MAPPING if exceptions.CLASS_MAPPING.get(k) is not before.get(k)])
     res.notes.append('exhaustive over 18 reply codes and %d constants' % len(S.CONSTANTS))
     return res
 
